@@ -1,4 +1,4 @@
-"""Shared by props/c04.py and props/c05.py: word-piece AST, rendering to shell syntax, the model's
+"""Shared by props/c04.py and props/c05.py (file name per the naming rule props/c04*.py): word-piece AST, rendering to shell syntax, the model's
 token encoding, the check that brush's own word parser maps the rendered text back to the
 intended AST, case construction for the model entry `xp` and the harness subcommand `xp`,
 and a bash runner (second opinion).
